@@ -23,6 +23,7 @@ from .director import (
     STREAM_KINDS,
     InjectedBase,
     InjectedError,
+    InjectedOSError,
     TaggedConnClosed,
     TaggedConnReset,
     make_stream_exc,
@@ -152,6 +153,8 @@ class RawBody:
                         raise make_stream_exc(f['kind'], f['tag'])
                     if f['kind'] == 'base':
                         raise InjectedBase(f['tag'])
+                    if f['kind'] == 'oserror':
+                        raise InjectedOSError(f['tag'])
                     raise InjectedError(f['tag'])
         chunk = self.data[self.pos:self.pos + want]
         self.pos += len(chunk)
@@ -360,6 +363,8 @@ class FakeS3:
             raise TaggedConnReset(f['tag'])
         if kind == 'base':
             raise InjectedBase(f['tag'])
+        if kind == 'oserror':
+            raise InjectedOSError(f['tag'])
         raise InjectedError(f['tag'])
 
     def _error_response(self, request, e):
